@@ -22,6 +22,10 @@ def registry():
         reg.update(registry_more.more())
     except ImportError:
         pass
+    for pid, ent in reg.items():
+        # "the state the code keeps is the state the Model has": Props/<ID>State.lean over Generated/Footprint.lean
+        ent["lean"] = list(ent["lean"]) + [f"TinyFlux.Props.{pid}State"]
+        ent["gen"] = tuple(ent.get("gen", ())) + ("Footprint",)
     return reg
 
 
